@@ -102,60 +102,45 @@ func (v *FnVC) execAppend(in *ssa.Call, st *State) {
 	et := elemTypeOf(in.Call.Args[0].Type())
 	es := sortOf(et)
 	h, hname := v.sliceHeapTerm(st, et)
-	srcIsString := isString(in.Call.Args[1].Type())
-	_ = srcIsString
 	ls, lt := SLen(s.T), SLen(t.T)
 	n := v.define("applen", Add(ls, lt))
-	inPlace := Le(n, SCap(s.T))
+	inPlace := v.define("inplace", Le(n, SCap(s.T)))
 	srcArr := v.readArray(st, et, SRef(t.T))
 	dstArr := v.readArray(st, et, SRef(s.T))
-
-	// in-place branch: elements written after the current length
-	var inArr *Term
+	off := SOff(s.T)
+	base := Add(off, ls)
+	// One array term describes the contents of the result in both cases (in
+	// place / reallocated). A reallocated array keeps the slice's offset:
+	// offsets are unobservable in Go, so old and new contents are related at the
+	// same absolute indices.
+	resArr := v.fresh("app", ArrSort(es))
+	freshCounter++
+	K := Var(fmt.Sprintf("ap?%d", freshCounter), SInt)
+	v.assume(v.curGuard, Forall([]*Term{K}, Implies(And(Le(off, K), Lt(K, base)), Eq(Select(resArr, K), Select(dstArr, K))),
+		[]*Term{Select(resArr, K)}, []*Term{Select(dstArr, K)}), "append-prefix")
 	_, cnt, isVar := varargsArray(in.Call.Args[1])
-	small := isVar && cnt <= 4
-	if small {
-		inArr = dstArr
+	if isVar && cnt <= 4 {
 		for k := int64(0); k < cnt; k++ {
-			inArr = Store(inArr, Add(Add(SOff(s.T), ls), IntLit(k)), Select(srcArr, AddC(SOff(t.T), k)))
+			v.assume(v.curGuard, Eq(Select(resArr, AddC(base, k)), Select(srcArr, AddC(SOff(t.T), k))), "append-elem")
 		}
 	} else {
-		inArr = v.fresh("app_in", ArrSort(es))
 		freshCounter++
-		K := Var(fmt.Sprintf("ap?%d", freshCounter), SInt)
-		base := Add(SOff(s.T), ls)
-		v.assume(v.curGuard, Forall([]*Term{K}, Ite(And(Le(base, K), Lt(K, Add(base, lt))),
-			Eq(Select(inArr, K), Select(srcArr, Add(Sub(K, base), SOff(t.T)))),
-			Eq(Select(inArr, K), Select(dstArr, K))), []*Term{Select(inArr, K)}, []*Term{Select(dstArr, K)}), "append-inplace")
+		K2 := Var(fmt.Sprintf("ap?%d", freshCounter), SInt)
+		v.assume(v.curGuard, Forall([]*Term{K2}, Implies(And(Le(base, K2), Lt(K2, Add(base, lt))),
+			Eq(Select(resArr, K2), Select(srcArr, Add(Sub(K2, base), SOff(t.T))))), []*Term{Select(resArr, K2)}), "append-new")
 		freshCounter++
 		J := Var(fmt.Sprintf("ap?%d", freshCounter), SInt)
 		v.assume(v.curGuard, Forall([]*Term{J}, Implies(And(Le(SOff(t.T), J), Lt(J, Add(SOff(t.T), lt))),
-			Eq(Select(inArr, Add(Sub(J, SOff(t.T)), base)), Select(srcArr, J))), []*Term{Select(srcArr, J)}), "append-inplace-src")
+			Eq(Select(resArr, Add(Sub(J, SOff(t.T)), base)), Select(srcArr, J))), []*Term{Select(srcArr, J)}), "append-new-src")
 	}
-	// growing branch: fresh array. The fresh array keeps the slice's offset
-	// (offsets are unobservable in Go), so old and new contents are related
-	// at the same absolute indices.
-	newRef := v.define("ref_append", st.alloc)
+	// in place: everything outside the appended window keeps its value
+	freshCounter++
+	K3 := Var(fmt.Sprintf("ap?%d", freshCounter), SInt)
+	v.assume(v.curGuard, Implies(inPlace, Forall([]*Term{K3}, Implies(Or(Lt(K3, base), Ge(K3, Add(base, lt))), Eq(Select(resArr, K3), Select(dstArr, K3))),
+		[]*Term{Select(resArr, K3)})), "append-inplace-rest")
+	newRef := st.alloc
 	newCap := v.fresh("appcap", SInt)
-	v.assume(v.curGuard, And(Ge(newCap, n), Le(Add(SOff(s.T), newCap), BigLit(maxLenBig))), "append-cap")
-	var grArr *Term
-	grArr = v.fresh("app_gr", ArrSort(es))
-	{
-		freshCounter++
-		K := Var(fmt.Sprintf("ap?%d", freshCounter), SInt)
-		base := Add(SOff(s.T), ls)
-		body := And(
-			Implies(And(Le(SOff(s.T), K), Lt(K, base)), Eq(Select(grArr, K), Select(dstArr, K))),
-			Implies(And(Le(base, K), Lt(K, Add(base, lt))), Eq(Select(grArr, K), Select(srcArr, Add(Sub(K, base), SOff(t.T))))))
-		v.assume(v.curGuard, Forall([]*Term{K}, body, []*Term{Select(grArr, K)}, []*Term{Select(dstArr, K)}), "append-grow")
-		if !small {
-			freshCounter++
-			J := Var(fmt.Sprintf("ap?%d", freshCounter), SInt)
-			v.assume(v.curGuard, Forall([]*Term{J}, Implies(And(Le(SOff(t.T), J), Lt(J, Add(SOff(t.T), lt))),
-				Eq(Select(grArr, Add(Sub(J, SOff(t.T)), base)), Select(srcArr, J))), []*Term{Select(srcArr, J)}), "append-grow-src")
-		}
-	}
-	// store-frame: the in-place write targets s's array
+	v.assume(v.curGuard, And(Ge(newCap, n), Le(Add(off, newCap), BigLit(maxLenBig))), "append-cap")
 	if !v.modAll {
 		alts := []*Term{Not(inPlace), Eq(lt, IntLit(0)), Ge(SRef(s.T), v.entry.alloc)}
 		for _, m := range v.mods {
@@ -165,15 +150,11 @@ func (v *FnVC) execAppend(in *ssa.Call, st *State) {
 		}
 		v.oblige("frame", fmt.Sprintf("store-frame#%d", v.ord("frame")), v.curGuard, Or(alts...), v.posOf(in.Pos()), "append in place writes memory allocated by this call or listed in modifies")
 	}
-	resIn := MkSlice(SRef(s.T), SOff(s.T), n, SCap(s.T))
-	resGr := MkSlice(newRef, SOff(s.T), n, newCap)
-	// Go: appending nothing to a nil slice returns it unchanged; in general when
-	// n <= cap the original array is reused.
-	res := v.define("append", Ite(inPlace, resIn, resGr))
-	nh := Ite(inPlace, Store(h, SRef(s.T), inArr), Store(h, newRef, grArr))
-	st.heaps[hname] = v.define(hname, nh)
+	resRef := v.define("appref", Ite(inPlace, SRef(s.T), newRef))
+	resCap := v.define("appcapv", Ite(inPlace, SCap(s.T), newCap))
+	st.heaps[hname] = v.define(hname, Store(h, resRef, resArr))
 	st.alloc = v.define("alloc", Ite(inPlace, st.alloc, AddC(st.alloc, 1)))
-	v.regs[in] = Val{T: res, Typ: in.Type()}
+	v.regs[in] = Val{T: MkSlice(resRef, off, n, resCap), Typ: in.Type()}
 }
 
 func (v *FnVC) execCopy(in *ssa.Call, st *State) {
@@ -350,7 +331,7 @@ func (v *FnVC) applyContract(in *ssa.Call, callee *ssa.Function, spec *FuncSpec,
 		if s == "STRUCT" || s == "TUPLE" {
 			unsupported("call result of type %s", rt)
 		}
-		r := v.fresh(fmt.Sprintf("res%d_%s", i, sanitize(spec.Key)), s)
+		r := v.freshVal(fmt.Sprintf("res%d_%s", i, sanitize(spec.Key)), s)
 		v.assume(v.curGuard, v.typeInv(r, rt, st), "type")
 		results = append(results, Val{T: r, Typ: rt})
 	}
@@ -669,7 +650,7 @@ func (v *FnVC) applyInvoke(in *ssa.Call, spec *FuncSpec, args []Val, st *State) 
 	}
 	var results []Val
 	for i, rt := range resTypes {
-		r := v.fresh(fmt.Sprintf("res%d_%s", i, sanitize(spec.Key)), sortOf(rt))
+		r := v.freshVal(fmt.Sprintf("res%d_%s", i, sanitize(spec.Key)), sortOf(rt))
 		v.assume(v.curGuard, v.typeInv(r, rt, st), "type")
 		results = append(results, Val{T: r, Typ: rt})
 	}
